@@ -212,12 +212,18 @@ pub open spec fn step_set_permissions(s: Raw, t: Raw, sender: Seq<char>, spender
     r is Ok ==> inv_wf(final(deps.storage).view())
 @ensures C07.increase_nomsg
     r is Ok ==> r->Ok_0.messages@.len() == 0
+@ensures C17.increase_never_refused_to_an_admin C08
+    is_admin_of(old(deps.storage).view(), info.sender@) && addr_ok(spender@) && spender@ != info.sender@
+        && (!old(deps.storage).view().contains_key(akey(spender@)) || allow_of(old(deps.storage).view(), spender@) is Some)
+        && !(match expires { Some(e) => e, None => match allow_of(old(deps.storage).view(), spender@) { Some(x) => x.expires, None => Expiration::Never {} } }).expired(&env.block)
+        ==> r is Ok
 @closure_types 1
     allow: Option<Allowance>
 @closure 1 C08.increase_closure
     (res: Result<Allowance, ContractError>)
     requires allow is Some ==> allow->Some_0.balance.wf()
-    ensures res is Ok ==> res->Ok_0.balance.wf() && !res->Ok_0.expires.expired(&env.block)
+    ensures !(match expires { Some(e) => e, None => match allow { Some(x) => x.expires, None => Expiration::Never {} } }).expired(&env.block) ==> res is Ok,
+        res is Ok ==> res->Ok_0.balance.wf() && !res->Ok_0.expires.expired(&env.block)
         && res->Ok_0.expires == (match expires { Some(e) => e, None => match allow { Some(x) => x.expires, None => Expiration::Never {} } })
         && (forall|d: Seq<char>| res->Ok_0.balance.amt(d) ==
             (match base_allowance(allow, &env.block) { Some(x) => x.balance.amt(d), None => 0 }) + (if d == amount.denom@ { amount.amount@ } else { 0 }))
@@ -253,6 +259,8 @@ pub open spec fn step_set_permissions(s: Raw, t: Raw, sender: Seq<char>, spender
     r is Ok ==> step_set_permissions(old(deps.storage).view(), final(deps.storage).view(), info.sender@, spender@, perm)
 @ensures C07.set_permissions_nomsg
     r is Ok ==> r->Ok_0.messages@.len() == 0
+@ensures C17.set_permissions_never_refused_to_an_admin C08
+    is_admin_of(old(deps.storage).view(), info.sender@) && addr_ok(spender@) && spender@ != info.sender@ ==> r is Ok
 @end
 
 @fn contracts/cw1-subkeys/src/contract.rs execute_decrease_allowance [closures: 2]
